@@ -11,10 +11,12 @@ import glob, json, os, re, subprocess
 from vlib import *
 
 CLEAN_TAIL = "st=0/0/0/0 after=ok log2=999 st2=0/0/0/0"
-NKINDS = 13
+NKINDS = 19
 APIS = ("run", "call", "try")
 KIND_NAMES = ["getter", "forEach", "sortcmp", "generator", "nestedRun", "callable", "nestedRun-swallow",
-              "callable-swallow", "toString", "proxytrap", "ctor", "Reflect.apply", "toJSON"]
+              "callable-swallow", "toString", "proxytrap", "ctor", "Reflect.apply", "toJSON",
+              "callable-wrap%w", "callable-wrapJoin", "nestedRun-wrap%w", "nestedRun-wrapJoin", "reflect-returns-wrapped",
+              "callable-wrapNested"]
 
 
 # ------------------------------------------------------------------ program generator (tree = list of tuples)
@@ -62,7 +64,7 @@ class Gen:
             fin = [("L", self.lid())] + self.block(depth + 1, "finally", 1) if f else []
             return ("Y", c, f, body, cat, fin)
         if x < 0.80:
-            kind = r.randrange(NKINDS)
+            kind = r.randrange(13, NKINDS) if r.random() < 0.35 else r.randrange(NKINDS)
             reps = r.randint(1, 3) if kind == 1 else 1
             return ("N", kind, reps, self.block(depth + 1, KIND_NAMES[kind]))
         if x < 0.87:
